@@ -444,6 +444,11 @@ func (p *PerspectiveKeyFetcher) FetchKeys(
 
 	results := map[PublicKeyLookupRequest]PublicKeyLookupResult{}
 
+	requestedServers := map[spec.ServerName]bool{}
+	for req := range requests {
+		requestedServers[req.ServerName] = true
+	}
+
 	for _, keys := range serverKeys {
 		var valid bool
 		keyIDs, err := ListKeyIDs(string(p.PerspectiveServerName), keys.Raw)
@@ -468,6 +473,12 @@ func (p *PerspectiveKeyFetcher) FetchKeys(
 		if !valid {
 			// This means we don't have a known signature from the perspective server.
 			return nil, fmt.Errorf("gomatrixserverlib: not signed with a known key for the perspective server")
+		}
+
+		if !requestedServers[keys.ServerName] {
+			// The response is about a server we did not ask about. The name below is the
+			// response's own, so nothing would tie its keys to a server of our requests.
+			continue
 		}
 
 		// Check that the keys are valid for the server they claim to be
